@@ -19,13 +19,18 @@ Keys  == {"matchFirst", "matchSecond", "none"}
 \* spKey: the SP publishes its encryption certificate with use="encryption", or one certificate without a use attribute
 \* (good for signing and encryption alike) -- either way it has an encryption certificate
 Scn == [producer : {"idp"}, signResp : BOOLEAN, signAssert : BOOLEAN, advice : BOOLEAN, selfContained : BOOLEAN,
-        pefim : BOOLEAN, keys : Keys, inner : {"none"}, wantAssert : BOOLEAN, companion : {FALSE}, spKey : {"labelled", "unlabelled"}]
+        pefim : BOOLEAN, keys : Keys, inner : {"none"}, wantAssert : BOOLEAN, companion : {FALSE}, spKey : {"labelled", "unlabelled"},
+        \* priorVerify: the same IdP object has just verified a signed AuthnRequest of that SP (looked its *signing*
+        \* certificate up); the assertion is encrypted under the encryption certificate all the same
+        priorVerify : BOOLEAN]
        \cup [producer : {"attacker"}, signResp : {FALSE}, signAssert : {TRUE}, advice : {FALSE}, selfContained : {TRUE},
-             pefim : {FALSE}, keys : Keys, inner : Inner, wantAssert : BOOLEAN, companion : BOOLEAN, spKey : {"labelled"}]
+             pefim : {FALSE}, keys : Keys, inner : Inner, wantAssert : BOOLEAN, companion : BOOLEAN, spKey : {"labelled"}, priorVerify : {FALSE}]
 
+\* the prior verification is combined with the plain build options only
+WellFormed(s) == s.priorVerify => ~s.advice /\ ~s.pefim /\ s.selfContained /\ s.keys = "matchFirst" /\ s.spKey = "labelled"
 VARIABLES scn, pc, plain, sigChecked, verdict
 vars == <<scn, pc, plain, sigChecked, verdict>>
-Init == scn \in Scn /\ pc = "round1" /\ plain = FALSE /\ sigChecked = FALSE /\ verdict = "none"
+Init == scn \in {s \in Scn : WellFormed(s)} /\ pc = "round1" /\ plain = FALSE /\ sigChecked = FALSE /\ verdict = "none"
 
 Done(v) == verdict' = v /\ pc' = "done" /\ UNCHANGED <<scn, plain, sigChecked>>
 HasSig == scn.signAssert /\ scn.inner # "unsigned"
